@@ -416,7 +416,8 @@ def run(tier):
     ck.rule = ("S->I: TLC enumerates every behaviour of Output for 6 program variants (gen_params, gen_coords, gen_seq, each without and with "
                "its optional stages) x 20 initial directories (target absent/present x every subset of backups #.1# #.2# #.3#, incl. non-contiguous ones; "
                "output path = symbolic link to a regular file with backups {}, {1}, {2}, {1,3}; plus 3 other spellings of the output path - through a symlinked "
-               "directory, ./sub/../name, absolute - x fresh / existing / existing+backup) x every crash point "
+               "directory, ./sub/../name, absolute - x fresh / existing / existing+backup; plus the output path occupied by an INPUT of the run - gen_coords -c, gen_params -f naming the output "
+               "path itself, a symbolic link to it, or ./sub/../name) x every crash point "
                "(before and after every stage, in the middle of serialisation, of the flush and of gen_seq's write) or success; each is run on the "
                "real program in a fresh process and compared after every stage; distinct = (variant, initial directory, crash point). "
                "I->S: seeded real runs on 24 other inputs (9 of them failing by themselves), 6 backup names with gaps, other file names and "
@@ -466,7 +467,7 @@ def run(tier):
     ck.extra["behaviours_inside_work_stage_not_injectable"] = len(inside)
     if tier == "quick":
         # stratified (seeded): every (variant, crash point); all 20 initial directories for success and the flush points,
-        # 3 plain + 2 symlink directories for the serialisation points, 2 plain + 1 symlink for the work stages
+        # 3 plain + 2 symlink directories for the serialisation points, 1 plain + 1 symlink for the work stages
         rng = random.Random(sd)
         groups = {}
         for h in hists:
@@ -500,7 +501,7 @@ def run(tier):
             elif last["stage"] in ("popen", "pwrite", "write", "open", "flush"):
                 sel += rng.sample([h for h in g if h not in links], 3) + rng.sample(links, 2)
             else:
-                sel += rng.sample([h for h in g if h not in links], 2) + rng.sample(links, 1)
+                sel += rng.sample([h for h in g if h not in links], 1) + rng.sample(links, 1)
         hists = sel
     ck.stage("S->I: %d behaviours on the real programs" % len(hists))
     mid = [h for h in hists if h[-1]["ev"] == {"kind": "crash", "stage": "flush", "when": "mid"} and h[0]["fs"]["out"] == "old" and h[0]["fs"]["b1"] != "absent"]
